@@ -61,6 +61,7 @@ struct Th {
   uint64_t sigmask = 0;
   bool deliver = false;
   int wait_pid = 0;
+  int wait_opt = 0;
   int read_fd = -1;
   int in_handler = 0;
   int in_alloc = 0;            // the thread is inside the memory allocator (an allocation chosen as a scheduling point)
@@ -150,6 +151,7 @@ struct Pipe { std::string buf; int writers = 0; int readers = 0; };
 struct Child {
   int pid = 0; int state = 0; /*0 waiting for OK, 1 ready to exec, 2 running, 3 zombie, 4 reaped*/
   vsim::Fate fate; long age = 0; int cfd_r = -1; int ffd_w = -1; int parent_thread = 0; int status = 0; int out_fd = -1; bool reusable = false;
+  bool stopped = false; bool stop_reported = false;   // job control: stopped by a signal, and whether a WUNTRACED waitpid has already reported it
   bool real_done = false; bool hung = false; int real_status = 0; std::string real_note;   // outcome of the real forked copy that ran the child side of an exec failure
 };
 struct FdEnt { int pipe; bool wr; };
@@ -193,7 +195,7 @@ void child_zombie(Child& c) {
   raise_sigchld(c.parent_thread);
 }
 bool wait_ready(Th* t) {
-  if (t->wait_pid > 0) { auto it = children.find(t->wait_pid); return it == children.end() || it->second.state >= 3; }
+  if (t->wait_pid > 0) { auto it = children.find(t->wait_pid); return it == children.end() || it->second.state >= 3 || ((t->wait_opt & WUNTRACED) && it->second.stopped && !it->second.stop_reported); }
   bool any = false; for (auto& kv : children) { if (kv.second.state == 3) return true; if (kv.second.state < 3) any = true; }
   return !any;
 }
@@ -239,8 +241,16 @@ void schedule() {
     for (auto t : ths) if (t != self && schedulable(t)) ch.push_back({0, t->id});
     size_t nthreads_en = ch.size();
 #ifdef VSIM_PROC
-    for (auto& kv : children) { auto& c = kv.second; if (c.state == 1) ch.push_back({1, c.pid}); if (c.state == 2 && !c.hung && c.age >= c.fate.min_steps) ch.push_back({2, c.pid}); }
-    for (auto& kv : children) if (kv.second.state == 2) kv.second.age++;
+    for (auto& kv : children) { auto& c = kv.second; if (c.state == 1) ch.push_back({1, c.pid}); if (c.state == 2 && !c.hung && !c.stopped && c.age >= c.fate.min_steps) ch.push_back({2, c.pid}); }
+    for (auto& kv : children) if (kv.second.state == 2) {
+      auto& c = kv.second; c.age++;
+      // job control from outside: the child is stopped, later continued; both changes of state raise SIGCHLD (no SA_NOCLDSTOP in sa_flags)
+      if (c.fate.stop_at >= 0 && !c.hung) {
+        const bool nocldstop = (handlers[SIGCHLD].sa_flags & SA_NOCLDSTOP) != 0;
+        if (!c.stopped && c.age == c.fate.stop_at + 1) { c.stopped = true; c.stop_reported = false; vsim::count("child_stopped"); vsim::event(106, c.pid, 0); if (!nocldstop) raise_sigchld(c.parent_thread); }
+        else if (c.stopped && c.age >= c.fate.stop_at + 1 + c.fate.stop_len) { c.stopped = false; c.fate.stop_at = -1; vsim::count("child_continued"); vsim::event(107, c.pid, 0); if (!nocldstop) raise_sigchld(c.parent_thread); }
+      }
+    }
 #endif
     if (ch.empty()) {
       bool all = true; for (auto t : ths) if (t->state != FIN) all = false;
@@ -830,7 +840,9 @@ pid_t __wrap_waitpid(pid_t pid, int* st, int opt) {
   vsim::event(25, pid, opt);
   for (;;) {
     Child* z = nullptr; bool exists = false;
-    if (pid > 0) { auto it = children.find(pid); if (it != children.end() && it->second.state != 4) { exists = true; if (it->second.state == 3) z = &it->second; } }
+    if (pid > 0) { auto it = children.find(pid); if (it != children.end() && it->second.state != 4) { exists = true; if (it->second.state == 3) z = &it->second;
+        else if ((opt & WUNTRACED) && it->second.stopped && !it->second.stop_reported) {   // a stopped child is reported (once) to a caller that asked for it
+          it->second.stop_reported = true; if (st) *st = (SIGSTOP << 8) | 0x7f; vsim::count("stopped_child_reported_by_waitpid"); vsim::event(26, pid, (SIGSTOP << 8) | 0x7f); self->state = RUN; ypoint(); return pid; } } }
     else for (auto& kv : children) { if (kv.second.state != 4) exists = true; if (kv.second.state == 3 && !z) z = &kv.second; }
     if (!exists) { vsim::count((opt & WNOHANG) ? "ECHILD_wnohang" : "ECHILD_blocking"); errno = ECHILD; vsim::event(26, pid, -ECHILD); return -1; }
     if (z) {
@@ -841,7 +853,7 @@ pid_t __wrap_waitpid(pid_t pid, int* st, int opt) {
       return zp;
     }
     if (opt & WNOHANG) return 0;
-    self->state = B_WAITPID; self->wait_pid = pid;
+    self->state = B_WAITPID; self->wait_pid = pid; self->wait_opt = opt;
     // Linux do_wait(): on wake-up the children are re-scanned before signal_pending() is tested
     for (;;) {
       schedule();
